@@ -4,6 +4,8 @@ import (
 	"fmt"
 	"go/token"
 	"go/types"
+	"os"
+	"sort"
 	"strings"
 
 	"ndndcheck/core"
@@ -96,9 +98,9 @@ func C20(c *core.Ctx) {
 					return false
 				}
 				id, ok := core.Callee(ci.Common())
-				return ok && id.Pkg == "std/engine/basic" && (id.Name == "SetValue" || id.Name == "Delete")
+				return ok && id.Pkg == "std/engine/basic" && id.Name == "SetValue"
 			}, nil)
-			c.Decide(fr.OK, "R20.1", "pending-list-replaced:"+key, c.Pos(in), "the node's list is replaced (or the node deleted) on every path after the callback, before the lock is released", fname+" can return after invoking a callback without replacing the node's pending list: resolved entries stay pending")
+			c.Decide(fr.OK, "R20.1", "pending-list-replaced:"+key, c.Pos(in), "the node's list is replaced (SetValue) on every path after the callback, before the lock is released", fname+" can return after invoking a callback without replacing the node's pending list: the timeout closures keep their node, so a timer that already fired and waits for the lock finds the resolved entries again and resolves them a second time (unlinking the node from the trie does not help)")
 			// (d) timeout cancelled first (Data and Nack paths)
 			if fn.Name() == "onData" || fn.Name() == "onNack" {
 				okCancel := core.Precedes(fn, in, func(x ssa.Instruction) bool {
@@ -146,6 +148,11 @@ func C20(c *core.Ctx) {
 		})
 	}
 	c.Floor("R20.1", "resolution loops", nLoops, 3)
+
+	// ---- R20.3 pruning never loses pending Interests or handlers
+	c20Pruning(c)
+	// ---- R20.4 every node gets its own list storage
+	c20FreshLists(c, pkg)
 
 	// ---- R20.2 onData gates
 	if od := c.Fn("R20.2", "std/engine/basic", "Engine", "onData"); od != nil {
@@ -478,4 +485,296 @@ func derefFree(v ssa.Value, f *ssa.Function) ssa.Value {
 func isNamed(t types.Type, name string) bool {
 	n, ok := t.(*types.Named)
 	return ok && n.Obj().Name() == name
+}
+
+// c20Pruning decides R20.3: (a) the engine never removes trie nodes with the
+// unconditional NameTrie.Delete (which drops the subtree and cascades over ancestors
+// without looking at their values); (b) in DeleteIf the unlink of a node from its parent
+// is reachable only when the predicate held for the node's value, the node has no
+// children, and the parent still refers to this very node; (c) the recursion continues
+// at the parent with the same predicate.
+func c20Pruning(c *core.Ctx) {
+	p := c.P
+	pkg := core.ModPath + "/std/engine/basic"
+	// (a) who may call Delete
+	bad := ""
+	nCalls := 0
+	for _, fn := range p.Funcs() {
+		if fn.Pkg == nil || strings.HasSuffix(p.File(fn.Pos()), "_test.go") {
+			continue
+		}
+		core.Instrs(fn, func(in ssa.Instruction) {
+			ci, ok := in.(ssa.CallInstruction)
+			if !ok {
+				return
+			}
+			id, ok := core.Callee(ci.Common())
+			if !ok || id.Pkg != "std/engine/basic" || !strings.HasPrefix(id.Recv, "NameTrie") {
+				return
+			}
+			switch id.Name {
+			case "Delete":
+				if baseName(fn) != "Delete" { // its own recursion
+					bad = c.Pos(in) + " (" + core.FuncName(fn) + ")"
+				}
+			case "DeleteIf":
+				nCalls++
+			}
+		})
+	}
+	c.Decide(bad == "", "R20.3", "no-unconditional-node-delete", "-", "no caller of NameTrie.Delete outside the trie: nodes are removed only through DeleteIf with a predicate on the value", "NameTrie.Delete is called at "+bad+": it drops every descendant of the node and unlinks ancestors without looking at their values — pending Interests (or handlers) below and above that name are lost")
+	c.Floor("R20.3", "DeleteIf call sites", nCalls, 3)
+	// (b) DeleteIf's unlink gates — on the generic body and every instantiation
+	n := 0
+	// instantiations of the generic trie are not package members: discover them as
+	// static callees of the package's functions (transitively)
+	var bodies []*ssa.Function
+	seenF := map[*ssa.Function]bool{}
+	var visit func(f *ssa.Function)
+	visit = func(f *ssa.Function) {
+		if f == nil || seenF[f] || f.Blocks == nil {
+			return
+		}
+		seenF[f] = true
+		if baseName(f) == "DeleteIf" && f.Signature.Recv() != nil {
+			bodies = append(bodies, f)
+		}
+		core.Instrs(f, func(in ssa.Instruction) {
+			if ci, ok := in.(ssa.CallInstruction); ok {
+				if cal := ci.Common().StaticCallee(); cal != nil && cal.Origin() != nil {
+					visit(cal)
+				}
+			}
+		})
+	}
+	for _, fn := range p.FuncsIn(pkg) {
+		visit(fn)
+	}
+	if os.Getenv("NDNDCHECK_DEBUG") != "" {
+		for f := range seenF {
+			fmt.Fprintln(os.Stderr, "C20 visited", f.String(), f.Name(), f.Origin() != nil, f.Blocks != nil)
+		}
+	}
+	sort.Slice(bodies, func(i, j int) bool { return core.FuncName(bodies[i]) < core.FuncName(bodies[j]) })
+	for _, fn := range bodies {
+		n++
+		fname := core.FuncName(fn)
+		c.Funcs[fname] = true
+		self := ssa.Value(fn.Params[0])
+		var unlinks []ssa.Instruction
+		core.Instrs(fn, func(in ssa.Instruction) {
+			if cl, ok := isBuiltinCall(in, "delete"); ok {
+				if _, okF := core.FieldOf(cl.Call.Args[0], "chd"); okF {
+					unlinks = append(unlinks, in)
+				}
+			}
+		})
+		if len(unlinks) == 0 {
+			c.Und("R20.3", "unlink:"+fname, p.Pos(fn.Pos()), "DeleteIf has no delete(parent.chd, key)")
+			continue
+		}
+		predTrue := atomCallTrue("pred(n.val)", func(cl *ssa.Call) bool {
+			if cl.Call.IsInvoke() || cl.Call.StaticCallee() != nil || len(cl.Call.Args) != 1 {
+				return false
+			}
+			if cl.Call.Value != ssa.Value(fn.Params[1]) {
+				return false
+			}
+			b, ok := core.FieldOf(cl.Call.Args[0], "val")
+			return ok && core.Same(b, self)
+		})
+		hasKids := &core.Atom{Name: "len(n.chd)>0", Match: func(cond ssa.Value) (int, int) {
+			op, x, y, ok := core.Cmp(cond)
+			if !ok {
+				return 0, 0
+			}
+			l, isLen := core.LenOf(x)
+			k, isC := core.ConstInt(y)
+			if !isLen || !isC {
+				return 0, 0
+			}
+			if b, okF := core.FieldOf(l, "chd"); !okF || !core.Same(b, self) {
+				return 0, 0
+			}
+			switch {
+			case op == token.GTR && k == 0, op == token.NEQ && k == 0, op == token.GEQ && k == 1:
+				return 1, -1
+			case op == token.EQL && k == 0, op == token.LEQ && k == 0, op == token.LSS && k == 1:
+				return -1, 1
+			}
+			return 0, 0
+		}}
+		linked := &core.Atom{Name: "n.par.chd[n.key]==n", Match: func(cond ssa.Value) (int, int) {
+			op, x, y, ok := core.Cmp(cond)
+			if !ok || (op != token.EQL && op != token.NEQ) {
+				return 0, 0
+			}
+			isLk := func(v ssa.Value) bool {
+				lk, ok := core.Strip(v).(*ssa.Lookup)
+				if !ok {
+					return false
+				}
+				_, okF := core.FieldOf(lk.X, "chd")
+				return okF
+			}
+			if (isLk(x) && core.Same(y, self)) || (isLk(y) && core.Same(x, self)) {
+				return core.Iff(op == token.EQL)
+			}
+			return 0, 0
+		}}
+		g1 := core.Gate(fn, unlinks, pos(predTrue))
+		g2 := core.Gate(fn, unlinks, neg(hasKids))
+		g3 := core.Gate(fn, unlinks, pos(linked))
+		c.Decide(g1.OK && g1.PassEdges > 0, "R20.3", "unlink-only-if-predicate:"+fname, p.Pos(fn.Pos()), "a node is unlinked only on the edge asserting pred(n.val)", "DeleteIf can unlink a node whose value does not satisfy the predicate (a node that still holds pending Interests / a handler)")
+		c.Decide(g2.OK && g2.PassEdges > 0, "R20.3", "unlink-only-leaf:"+fname, p.Pos(fn.Pos()), "a node is unlinked only on the edge asserting that it has no children", "DeleteIf can unlink a node that still has children: every pending Interest (or handler) below it is lost — later Data for those names is dropped as unsolicited")
+		c.Decide(g3.OK && g3.PassEdges > 0, "R20.3", "unlink-only-own-link:"+fname, p.Pos(fn.Pos()), "a node is unlinked only while its parent still refers to it", "DeleteIf on a node that was unlinked earlier (a timeout closure keeps its node) deletes the parent's entry for that key, which by then belongs to a newer node: its pending Interests are lost")
+		// (c) recursion at the parent with the same predicate
+		rec := false
+		core.Instrs(fn, func(in ssa.Instruction) {
+			cl, ok := in.(*ssa.Call)
+			if !ok || cl.Call.StaticCallee() == nil || baseName(cl.Call.StaticCallee()) != "DeleteIf" {
+				return
+			}
+			r, a := core.CallArgs(&cl.Call)
+			if b, okF := core.FieldOf(r, "par"); okF && core.Same(b, self) && len(a) == 1 && a[0] == ssa.Value(fn.Params[1]) {
+				rec = true
+			}
+		})
+		c.Decide(rec, "R20.3", "prune-ancestors-same-predicate:"+fname, p.Pos(fn.Pos()), "the walk continues at the parent with the same predicate", "DeleteIf does not continue at the parent with the same predicate")
+	}
+	c.Floor("R20.3", "DeleteIf bodies (generic + instantiations)", n, 1)
+	// (d) resolution by Nack and handler removal empty exactly the matched node first
+	for _, spec := range [][2]string{{"onNack", "a Nack"}, {"DetachHandler", "detaching a handler"}} {
+		fn := c.Fn("R20.3", "std/engine/basic", "Engine", spec[0])
+		if fn == nil {
+			continue
+		}
+		var dels []ssa.CallInstruction
+		core.Instrs(fn, func(in ssa.Instruction) {
+			if ci, ok := in.(ssa.CallInstruction); ok {
+				if id, ok := core.Callee(ci.Common()); ok && id.Pkg == "std/engine/basic" && id.Name == "DeleteIf" {
+					dels = append(dels, ci)
+				}
+			}
+		})
+		okClr := len(dels) > 0
+		for _, d := range dels {
+			node, _ := core.CallArgs(d.Common())
+			if !core.Precedes(fn, d, func(x ssa.Instruction) bool {
+				ci, ok := x.(ssa.CallInstruction)
+				if !ok {
+					return false
+				}
+				id, ok := core.Callee(ci.Common())
+				if !ok || id.Name != "SetValue" {
+					return false
+				}
+				r, a := core.CallArgs(ci.Common())
+				return core.Same(r, node) && len(a) == 1 && core.IsNilConst(core.Strip(a[0]))
+			}) {
+				okClr = false
+			}
+			if em := core.FindCalls(fn, core.CalleeID{Pkg: "std/engine/basic", Recv: "*", Name: "ExactMatch"}); len(em) != 1 || !core.Same(node, em[0].Value()) {
+				okClr = false
+			}
+		}
+		c.Decide(okClr, "R20.3", "clear-exact-node-then-prune:"+spec[0], p.Pos(fn.Pos()), "the node found by ExactMatch is emptied (SetValue(nil)) and then pruned with DeleteIf", spec[1]+" does not empty exactly the matched node before pruning with DeleteIf (entries of other names are affected, or the node is never released)")
+	}
+}
+
+// c20FreshLists decides R20.4: the list passed to SetValue is built on storage of its own
+// (make / nil inside the same iteration of the node walk) or by appending to the same
+// node's current list — never on a slice carried over from another node (re-slicing a
+// hoisted buffer makes the lists of different nodes share one backing array).
+func c20FreshLists(c *core.Ctx, pkg string) {
+	p := c.P
+	n := 0
+	for _, top := range p.FuncsIn(pkg) {
+		if strings.HasSuffix(p.File(top.Pos()), "_test.go") || top.Pkg == nil {
+			continue
+		}
+		fn := top
+		core.Instrs(fn, func(in ssa.Instruction) {
+			ci, ok := in.(ssa.CallInstruction)
+			if !ok {
+				return
+			}
+			id, ok := core.Callee(ci.Common())
+			if !ok || id.Pkg != "std/engine/basic" || id.Name != "SetValue" {
+				return
+			}
+			node, a := core.CallArgs(ci.Common())
+			if len(a) != 1 {
+				return
+			}
+			if _, isSlice := a[0].Type().Underlying().(*types.Slice); !isSlice {
+				return
+			}
+			if core.IsNilConst(core.Strip(a[0])) {
+				return
+			}
+			n++
+			fname := core.FuncName(fn)
+			loops := enclosingLoops(in.Block())
+			why := ""
+			seen := map[ssa.Value]bool{}
+			var walk func(v ssa.Value)
+			walk = func(v ssa.Value) {
+				v = core.Strip(v)
+				if v == nil || seen[v] || why != "" {
+					return
+				}
+				seen[v] = true
+				switch x := v.(type) {
+				case *ssa.Phi:
+					for _, e := range x.Edges {
+						walk(e)
+					}
+				case *ssa.Call:
+					if b, ok := x.Call.Value.(*ssa.Builtin); ok && b.Name() == "append" {
+						walk(x.Call.Args[0])
+						return
+					}
+					if id, ok := core.Callee(&x.Call); ok && id.Name == "Value" {
+						r, _ := core.CallArgs(&x.Call)
+						if core.Same(r, node) {
+							return
+						}
+					}
+					why = "the list comes from " + core.Leaf{Kind: "call", Val: x}.Desc()
+				case *ssa.MakeSlice:
+					// allocated inside every loop that encloses the SetValue
+					ml := enclosingLoops(x.Block())
+					for _, h := range loops {
+						found := false
+						for _, m := range ml {
+							if m == h {
+								found = true
+							}
+						}
+						if !found {
+							why = "the buffer is allocated once outside the walk over the nodes"
+						}
+					}
+				case *ssa.Const:
+					// nil
+				case *ssa.Slice:
+					why = "the list is a re-slice of a buffer that is reused from node to node"
+				default:
+					why = "the list's storage is of unknown origin"
+				}
+			}
+			walk(a[0])
+			c.Decide(why == "", "R20.4", fmt.Sprintf("node-list-own-storage:%s#%d", fname, n), c.Pos(in), "the list stored in the node is built on storage of its own", fname+" stores a pending list that shares its backing array with the list of another node ("+why+"): writing the survivors of the next node overwrites the survivors of this one — Interests vanish or are resolved by Data for another name")
+		})
+	}
+	c.Floor("R20.4", "SetValue(list) sites", n, 3)
+}
+
+// baseName: the function's name without type arguments.
+func baseName(f *ssa.Function) string {
+	if o := f.Origin(); o != nil {
+		return o.Name()
+	}
+	return f.Name()
 }
